@@ -169,6 +169,39 @@ def c07_1(ck, prog):
                         % (', '.join(missing), flag))
         else:
             r.ok(key)
+    # whole-value comparison: each key is compared directly between the two rules (scalars with `!=`,
+    # strings with strcmp / memcmp over both rules' pointers), not through a masked or derived value
+    def side(e):
+        while e is not None and e.get('k') in ('cast', 'paren'):
+            e = e.get('e')
+        idx = False
+        if e is not None and e.get('k') == 'sub':
+            idx = True
+            e = e.get('base')
+        if e is not None and e.get('k') == 'member' and e.get('rec') == 'BusMatchRule' and is_ref(e.get('base')):
+            return (e['base'].get('id'), e['field'], idx)
+        return None
+    direct = set()
+    for bid, blk in eq.blocks.items():
+        c = (blk.get('term') or {}).get('cond')
+        if c is None or c.get('k') != 'bin' or c['op'] not in ('!=', '=='):
+            continue
+        l, rr = c['l'], c['r']
+        if l.get('k') == 'call' and l.get('callee') in ('strcmp', 'memcmp') and is_int(rr, 0) and len(l['args']) >= 2:
+            l, rr = l['args'][0], l['args'][1]
+        sl, sr = side(l), side(rr)
+        if sl and sr and sl[0] != sr[0] and sl[1:] == sr[1:]:
+            direct.add(sl[1])
+    for fld in ('flags', 'message_type', 'matches_go_to', 'interface', 'member', 'sender', 'destination', 'path',
+                'args_len', 'arg_lens', 'args'):
+        key = 'equal:whole-value:%s' % fld
+        if fld in direct:
+            r.ok(key)
+        else:
+            r.violation(key, eq.name, SIG, eq.line,
+                        'match_rule_equal has no direct comparison of a->%s with b->%s (the field is compared '
+                        'only through a masked / derived value, or not at all): rules that differ in it are '
+                        '"equal" and RemoveMatch removes a different rule' % (fld, fld))
     if any(is_member(x, 'matches_go_to', 'BusMatchRule') for bid, blk in eq.blocks.items()
            for x in walk((blk.get('term') or {}).get('cond') or {})):
         r.ok('owner:equal')
